@@ -146,7 +146,7 @@ theorem regStep_of_step (s s' : State) (op : Op) (resp : CoinList) (h : step s o
 
 /-! ### well-formedness is preserved -/
 
-theorem regwf_of_regStep {s s' : State} (hw : RegWF s) (hg : GenWF s) (h : RegStep s s') : RegWF s' := by
+theorem regwf_of_regStep {s s' : State} (hw : RegWF s) (_hg : GenWF s) (h : RegStep s s') : RegWF s' := by
   cases h with
   | same e1 e2 e3 e4 | params e1 e2 e3 e4 =>
     constructor
@@ -182,7 +182,7 @@ theorem regwf_of_regStep {s s' : State} (hw : RegWF s) (hg : GenWF s) (h : RegSt
         rw [AMap.get?_set_other _ _ _ _ hck]; exact hgt
       · rw [a1, a2]; exact AMap.get?_set_self _ _ _
 
-theorem genwf_of_regStep {s s' : State} (hw : RegWF s) (hg : GenWF s) (h : RegStep s s') : GenWF s' := by
+theorem genwf_of_regStep {s s' : State} (_hw : RegWF s) (hg : GenWF s) (h : RegStep s s') : GenWF s' := by
   cases h with
   | same e1 e2 e3 e4 =>
     exact ⟨by rw [e3]; exact hg.nodup, by rw [e1]; exact hg.stdOk, by rw [e3]; exact hg.cpOk,
